@@ -67,6 +67,20 @@
 (*                        persistent iterator that a fault finalises:      *)
 (*                        later has_file of a name not yet seen is FALSE   *)
 (*                        (MC_DebFileCache_neg_scan.cfg)                   *)
+(* Round 7 (close() / leaving a `with` block is an ORDINARY step):         *)
+(*   Close   DebFile.close(), __exit__, DebPart.close(): the reader lets   *)
+(*           go of the operating-system file it opened itself (a package   *)
+(*           opened by file name; a file object of the caller is left      *)
+(*           alone) and opens it again ON DEMAND.  The step leaves NO      *)
+(*           trace: every later answer -- further queries on either part,  *)
+(*           the remainder of a half-read get_file() object obtained       *)
+(*           BEFORE the close -- is the stateless one.                     *)
+(* Negative control (HistExact violated):                                  *)
+(*   CloseForgetsPosition the re-opened member starts at its first byte    *)
+(*                        instead of where the readers left it: the        *)
+(*                        remainder of a half-read file and later contents *)
+(*                        of an opened part are garbage                    *)
+(*                        (MC_DebFileCache_neg_close.cfg)                  *)
 (* Output: with EmitH one HTAB line per (content generation of the two     *)
 (* packages, query) = the expected answer; the harness drives random       *)
 (* interleaved histories against two real open packages with it, and       *)
@@ -74,7 +88,8 @@
 (***************************************************************************)
 EXTENDS Naturals, Sequences, FiniteSets, TLC, Json
 
-CONSTANTS CacheKeyedByNameOnly, ContentCacheByFile, ResultsAliased, GetMemberRewinds, LazyScanDiesOnFault, EmitH
+CONSTANTS CacheKeyedByNameOnly, ContentCacheByFile, ResultsAliased, GetMemberRewinds, LazyScanDiesOnFault,
+          CloseForgetsPosition, EmitH
 
 \* the stateless operators of DebFile.tla (its variables and configuration constants play no role here)
 D == INSTANCE DebFile WITH Universe <- <<>>, MaxLen <- 0, AnyOrder <- TRUE, InitMatrix <- FALSE,
@@ -91,7 +106,7 @@ VARIABLES objs,     \* <<package 1, package 2>>, each [pkg |-> [c, d, m], prts |
           rmemo,    \* set of [k |-> <<o, op>>, v |-> dictionary result]
           last,     \* <<o, op>> of the dictionary returned last, or <<>>
           fh,       \* <<>> or [o, p, n, out]: the half-read get_file() object and what reading it to the end gives
-          strm,     \* set of <<o, p>>: decompression stream rewound behind a half-read file (GetMemberRewinds only)
+          strm,     \* set of <<o, p>>: stream position lost behind the readers' back (GetMemberRewinds / CloseForgetsPosition only)
           scan,     \* [dead |-> set of <<o, p>>, seen |-> set of <<o, p, key>>] (LazyScanDiesOnFault only)
           taint,    \* objects hit by a fault outside FaultDomOf since they were opened: unspecified
           hres      \* the last call and its answer (output only)
@@ -196,7 +211,9 @@ GetContent(o, p, sp, n) ==
     LET path == D!DSpell(sp, n)
         ck   == <<D!DNorm(path)>>
         hit  == {e \in ccache : e.k = ck}
-        out  == IF ContentCacheByFile /\ hit # {} THEN (CHOOSE e \in hit : TRUE).v ELSE AGet(o, p, path)
+        out  == IF ContentCacheByFile /\ hit # {} THEN (CHOOSE e \in hit : TRUE).v
+                ELSE IF CloseForgetsPosition /\ <<o, p>> \in strm THEN [err |-> "corrupt", found |-> FALSE, blob |-> 0]
+                ELSE AGet(o, p, path)
     IN /\ Answer("get", o, <<p, sp, n>>, out)
        /\ tcache' = IF ContentCacheByFile /\ hit # {} THEN tcache ELSE TFill(o, p)
        /\ ccache' = IF ContentCacheByFile /\ hit = {} THEN ccache \cup {[k |-> ck, v |-> out]} ELSE ccache
@@ -260,6 +277,16 @@ ArCall(o, kind, w) ==
                THEN strm \cup {<<o, w>>} ELSE strm
     /\ UNCHANGED <<objs, gen, tcache, ccache, rmemo, last, fh, scan, taint>>
 
+\* close() / __exit__ / DebPart.close() (w = "all" or the part closed): the file the reader opened itself is
+\* closed and opened again on demand -- no trace in anything a later call answers
+CloseWhich == HParts \cup {"all"}
+Close(o, w) ==
+    /\ hres' = [op |-> "close", o |-> o, w |-> w, out |-> [err |-> ""]]
+    /\ strm' = IF CloseForgetsPosition
+               THEN strm \cup {<<o, p>> : p \in {q \in HParts : (w \in {"all", q}) /\ THit(o, q) # {}}}
+               ELSE strm
+    /\ UNCHANGED <<objs, gen, tcache, ccache, rmemo, last, fh, scan, taint>>
+
 \* the caller's file object raises during query q of part p of object o: the exception comes out,
 \* nothing changes; a faulted ReadEnd: the caller drops the file object.  Outside the domain: taint
 FaultPart(q, args) == IF q \in {"has", "get", "readbegin"} THEN args[1] ELSE IF q = "readend" THEN fh.p ELSE "control"
@@ -284,6 +311,7 @@ Next == \/ \E o \in Objs :
             \*  inside the domain only -- an object tainted by one outside it has no specified answers)
             \/ \E w \in ArWhich : ArCall(o, "getmember", w)
             \/ ArCall(o, "getnames", "info")
+            \/ \E w \in CloseWhich : Close(o, w)
             \/ \E p \in HParts : FaultDom(o, p) /\ (Fault(o, "has", <<p, "plain", "f2">>) \/ Fault(o, "get", <<p, "slash", "f1">>))
             \/ FaultDom(o, "control") /\ Fault(o, "md5sums", <<>>)
             \/ fh # <<>> /\ fh.o = o /\ FaultDom(o, fh.p) /\ Fault(o, "readend", <<>>)
@@ -308,7 +336,7 @@ RepeatStable == [][(hres.op \in QueryOps /\ hres'.op = hres.op /\ hres'.o = hres
 CacheCoherent == (~CacheKeyedByNameOnly) => \A e \in tcache : e.v = PartContent(e.k[1], e.k[2])
 NoOtherMemo   == (~ContentCacheByFile /\ ~ResultsAliased) => ccache = {} /\ rmemo = {}
 \* the code keeps no per-part stream / scan state that the new steps could damage
-NoHiddenState == /\ (~GetMemberRewinds => strm = {})
+NoHiddenState == /\ (~GetMemberRewinds /\ ~CloseForgetsPosition => strm = {})
                  /\ (~LazyScanDiesOnFault => scan = [dead |-> {}, seen |-> {}])
 \* the pending remainder of a half-read file is the stateless answer for the object as it is now
 HandleSound   == fh # <<>> => fh.out = D!DGet(objs[fh.o].pkg, objs[fh.o].prts, fh.p, <<fh.n>>)
